@@ -67,7 +67,7 @@ def history(rng, tier):
     lines = ['pv_open']
     props = {}            # name -> type of the properties the generator believes exist
     state = {'ro': False}
-    via = lambda: rng.choice(['h', 'h', 'n'])
+    via = lambda: rng.choice(['h', 'h', 'n', 'k', 'k'])
 
     def create(name=None):
         name = name if name is not None else rng.choice([n for n in NAMES if n not in props] or NAMES)
